@@ -296,3 +296,23 @@ def validate_fine(tag, runs, workers=8, timeout=1500):
         ok[a["i"]] = a["lead"][0] if a["lead"] else None
     rej = {a["i"]: a for a in res.tagged.get("FINEREJ", [])}
     return res, ok, rej
+
+
+def validate_machine(tag, pairs, runs, workers=8, timeout=1500):
+    """Fine-grained recordings against Machine.tla: the generated next() as a machine over the
+    automaton the macro really compiled.  pairs: list of (program json, dump); runs: dicts with
+    i, p, inp, script, fine.  Returns (tlc, accepted ids, rejected {i: info})."""
+    d = ensure_dir(os.path.join(BUILD, tag))
+    mj = os.path.join(d, "machine.json")
+    with open(mj, "w") as f:
+        json.dump({"pairs": [{"prog": pj, "dump": {k: dump[k] for k in ("dfa", "renumber", "switch_arms", "entry")}}
+                             for pj, dump in pairs],
+                   "runs": [{"i": r["i"], "p": r["p"], "inp": r["inp"], "script": r["script"], "fine": r["fine"]}
+                            for r in runs]}, f)
+    res = run_tlc("Machine.tla", "Machine.cfg", env={"VERIF_MACHINE": mj}, workers=workers, timeout=timeout,
+                  tag=tag + "_machine")
+    if not res.ok:
+        raise ToolError("TLC failed on Machine.tla (%s):\n%s" % (tag, res.error))
+    ok = {a["i"] for a in res.tagged.get("MACHOK", [])}
+    rej = {a["i"]: a for a in res.tagged.get("MACHREJ", [])}
+    return res, ok, rej
